@@ -31,7 +31,7 @@ RULE = ('cases = random flat (1-5 states) or hierarchical (2-4 top-level states,
         'reflexive / nested local transitions, 1-3 models of 3 classes in arbitrary (resolved) states x a script '
         '(state names are drawn from plain letters or from a pool that stresses the auto-transition heuristic: names '
         'starting with t / o / _, containing "to_", prefixes and suffixes of each other; user events that resemble '
-        'automatic ones without being of the form to_<...>) of 0-7 later operations (read markup, add_states in any scope, add_transition with list / wildcard '
+        'automatic ones without being of the form to_<...>) of 0-7 later operations - in a third of the cases with a markup read before and after every single one - (read markup, add_states in any scope, add_transition with list / wildcard '
         'sources and "=" / None destinations, remove_transition, on_enter_/on_exit_/on_final_<state>(cb), the '
         'hierarchical on_enter/on_exit(state, cb) helpers, '
         'before_/after_/prepare_<event>(cb), model moved, model added) x a history of 3-10 events (declared, '
@@ -635,6 +635,21 @@ FLAT_NAMES = ['open', 'opened', 'op', 'tripped', 'too', 'to', 'ot', 't', 'o', '_
               'tot_o', 'o_t', 'otto', '__t', 'stop', 'A', 'B', 'to_', 'oto_op']
 HSM_NAMES = ['open', 'opened', 'op', 'tripped', 'too', 'to', 'ot', 't', 'o', 'x', 'otto', 'stop', 'A', 'B', 'toto']
 TRIGGERS = ['e0', 'e1', 'e2', 'e3', 'toggle', 'tock', 'ot_go']
+# user triggers of the form to_<something that is never a state name>: inside the envelope (the heuristic cannot
+# take them for automatic events), added / removed / decorated by later operations like any other trigger
+TO_USER = ['to_zq', 'to_go9']
+
+
+def _is_user(t):
+    return not t.startswith('to_') or t in TO_USER
+
+
+def _nested_triggers(states):
+    out = set()
+    for s in states:
+        out |= {t['trigger'] for t in s['transitions']} | _nested_triggers(s['children'])
+    return out
+
 
 
 def near_auto_trigger(r, tgt):
@@ -858,21 +873,26 @@ def gen(rng, i, tier):
             src = None if y < 0.25 else r.sample(srcs_all, r.randint(1, min(2, len(srcs_all))))
             z = r.random()
             dst = ['none'] if z < 0.15 else ['same'] if (z < 0.35 and src is not None) else ['to', r.choice(dests)]
-            trg = r.choice(['e0', 'e1', 'e4', 'e5', 'toggle', 'tock'] if not scope else ['e1', 'n1', 'n2', 'tock'])
+            trg = r.choice(['e0', 'e1', 'e4', 'e5', 'toggle', 'tock'] + TO_USER if not scope
+                           else ['e1', 'n1', 'n2', 'n3', 'tock', 'to_zq'])
             ops.append(['add_trans', scope, trg, src, dst, g.cbs(1, 0.6, True), g.cbs(1, 0.8, True), g.cbs(1, 0.7),
                         g.cbs(1, 0.6), g.cbs(1, 0.6)])
             if not scope:
                 for s in (local if src is None else src):
                     note(trg, s, s if dst[0] == 'same' else None if dst[0] == 'none' else dst[1])
+            else:
+                node_at(sh_states, scope)['transitions'].append(dict(trigger=trg))     # tracked for later removal
         elif x < 0.72:
-            user = [t for t in root_ev if not t.startswith('to_')]
+            user = [t for t in root_ev if _is_user(t)]
+            if hsm:     # also events that are declared only inside nested states
+                user = sorted(set(user) | {t for t in _nested_triggers(sh_states) if _is_user(t)})
             if not user or override:     # remove_transition needs the trigger bound on the models (delattr)
                 continue
             trg = r.choice(user)
             if hsm:
                 # the trigger disappears from every scope
                 ops.append(['rem_trans', trg, None, None])
-                del root_ev[trg]
+                root_ev.pop(trg, None)
                 _drop_nested(sh_states, trg)
             else:
                 src = None if r.random() < 0.5 else [r.choice(root_ev[trg])[0]]
@@ -893,7 +913,7 @@ def gen(rng, i, tier):
             else:
                 ops.append(['reg_state', r.randint(0, 2 if hsm else 1), p, 'k%d' % g.k])
         elif x < 0.9:
-            user = [t for t in root_ev if not t.startswith('to_')]
+            user = [t for t in root_ev if _is_user(t)]
             if not user:
                 continue
             g.k += 1
@@ -903,9 +923,15 @@ def gen(rng, i, tier):
         else:
             ops.append(['add_model', r.choice(classes), resolve(sh_states, r.choice(paths))])
             nmodels += 1
+    if r.random() < 0.35:
+        # the markup is read before and after every single reconfiguration step: nothing else can refresh the cache
+        single = []
+        for o in ops:
+            single += [o] if o[0] == 'get' else [['get'], o, ['get']]
+        ops = single
     # ---- history
     paths = all_paths(sh_states)
-    evs = ['e0', 'e1', 'e2', 'e3', 'e4', 'n0', 'n1', 'zz', 'toggle', 'tock', 'ot_go']
+    evs = ['e0', 'e1', 'e2', 'e3', 'e4', 'n0', 'n1', 'n2', 'n3', 'zz', 'toggle', 'tock', 'ot_go'] + TO_USER
     evs += [t['trigger'] for t in transitions if t['trigger'] not in evs and not t['trigger'].startswith('to_')]
     if auto:
         pre = 'to_' if (hsm or attr == 'state') else 'to_%s_' % attr
